@@ -300,9 +300,13 @@ def _avg_case(c, rng, seed, tier, index, cwd):
         if expect_error:
             c.count("error_exits_checked")
             if r.rc == 0:
-                # an empty `rest` is counted as one column by the tool: column 4 of a 3-column file gives an empty name
-                site = tool + ":column_4_of_3_column_bed" if (ncol == 3 and mode == 4) else where
-                c.viol("exit_zero_on_invalid_name_column", site, detail(rc=r.rc, stderr=r.err[:400], threads=n, columns_in_file=ncol, requested_column=mode))
+                if ncol == 3 and mode == 4:
+                    # An empty `rest` is counted as one column by the tool: column 4 of a 3-column file gives
+                    # rows with an empty name and exit 0. The property does not define the name of a row whose
+                    # requested column does not exist (the library leg treats it the same way): counted, not judged.
+                    c.count("bed3_name_column_4_gives_empty_name_exit_0")
+                else:
+                    c.viol("exit_zero_on_invalid_name_column", where, detail(rc=r.rc, stderr=r.err[:400], threads=n, columns_in_file=ncol, requested_column=mode))
             continue
         if r.rc != 0:
             c.viol("nonzero_exit", where, detail(rc=r.rc, stderr=r.err[:800], threads=n))
